@@ -759,8 +759,8 @@ VSlone(HFILEID f,       /* IN: file id */
     int32  nlone;            /* total number of lone vdatas */
     int32  ret_value = SUCCEED;
 
-    /* -- allocate local space for vdata refs, init to zeros -- */
-    if (NULL == (lonevdata = (uint8 *)calloc(MAX_REF, sizeof(uint8))))
+    /* -- allocate local space for vdata refs (0 .. MAX_REF), init to zeros -- */
+    if (NULL == (lonevdata = (uint8 *)calloc((size_t)MAX_REF + 1, sizeof(uint8))))
         HGOTO_ERROR(DFE_NOSPACE, FAIL);
 
     /* -- look for all vdatas in the file, and flag (1) each -- */
@@ -783,7 +783,7 @@ VSlone(HFILEID f,       /* IN: file id */
 
     /* -- check in lonevdata: it's a lone vdata if its flag is still 1 -- */
     nlone = 0;
-    for (i = 0; i < (int32)MAX_REF; i++) {
+    for (i = 0; i <= (int32)MAX_REF; i++) {
         if (lonevdata[i]) { /* insert into idarray up till asize */
             if (nlone < asize)
                 idarray[nlone] = i; /* insert ref of vdata into idarray */
@@ -826,8 +826,8 @@ Vlone(HFILEID f,       /* IN: file id */
     int32  nlone;         /* total number of lone vgroups */
     int32  ret_value = SUCCEED;
 
-    /* -- allocate space for vgroup refs, init to zeroes -- */
-    if (NULL == (lonevg = (uint8 *)calloc(MAX_REF, sizeof(uint8))))
+    /* -- allocate space for vgroup refs (0 .. MAX_REF), init to zeroes -- */
+    if (NULL == (lonevg = (uint8 *)calloc((size_t)MAX_REF + 1, sizeof(uint8))))
         HGOTO_ERROR(DFE_NOSPACE, FAIL);
 
     /* -- look for all vgroups in the file, and flag (1) each -- */
@@ -851,7 +851,7 @@ Vlone(HFILEID f,       /* IN: file id */
 
     /* -- check in lonevg: it's a lone vgroup if its flag is still 1 -- */
     nlone = 0;
-    for (i = 0; i < (int32)MAX_REF; i++) {
+    for (i = 0; i <= (int32)MAX_REF; i++) {
         if (lonevg[i]) { /* insert into idarray up till asize */
             if (nlone < asize)
                 idarray[nlone] = i; /* insert ref of vgroup into idarray */
